@@ -1,4 +1,5 @@
 """C10 - JSON/XML data-model round trip preserves values, shapes, units, system content."""
+import copy
 import io
 import os
 import shutil
@@ -6,7 +7,7 @@ import tempfile
 
 import numpy as np
 
-from ..core import Clause, Violation, require
+from ..core import Clause, Violation, require, jdump
 from .. import gens
 from .. import gens_c10 as g
 
@@ -114,7 +115,7 @@ def worst(got, exp):
     return 'at %r: got %.17g expected %.17g' % (i, got[i], exp[i])
 
 
-def check_array(what, got, shape, kind, exp, exact, tol=None, xml_len1=False):
+def check_array(what, got, shape, kind, exp, exact, tol=None, xml_len1=False, rel=REL):
     """shape, dtype kind and values of one array read back"""
     require(isinstance(got, (np.ndarray, np.generic)), lambda: '%s: read back as %r, not a numpy value' % (what, type(got)))
     got = np.asarray(got)
@@ -122,7 +123,7 @@ def check_array(what, got, shape, kind, exp, exact, tol=None, xml_len1=False):
         require(got.shape == tuple(shape), lambda: '%s: shape %r read back as %r' % (what, tuple(shape), got.shape))
     else:
         got = got.reshape(shape)
-    want = {'f': 'f', 'i': 'i', 's': 'U'}[kind]
+    want = {'f': 'f', 'i': 'i', 's': 'U', 'b': 'b'}[kind]
     require(got.dtype.kind == want, lambda: '%s: dtype kind %r read back as %r (%s)' % (what, want, got.dtype.kind, got.dtype))
     if kind == 's':
         require(got.tolist() == exp, lambda: '%s: strings differ: wrote %r read %r' % (what, exp, got.tolist()))
@@ -132,19 +133,87 @@ def check_array(what, got, shape, kind, exp, exact, tol=None, xml_len1=False):
         err = float(np.abs(got - exp).max())
         require(err <= tol, lambda: '%s: differs by %.3g (tol %.3g), %s' % (what, err, tol, worst(got, exp)))
     else:
-        require(rel_ok(got, exp), lambda: '%s: physical value differs beyond %.0e relative, %s' % (what, REL, worst(got, exp)))
+        require(rel_ok(got, exp, rel), lambda: '%s: physical value differs beyond %.0e relative, %s' % (what, rel, worst(got, exp)))
 
 
-_SENTINEL = {'f': np.nan, 'i': -7, 'u': 0, 'U': 'Q'}
+_SENTINEL = {'f': np.nan, 'i': -7, 'u': 0, 'U': 'Q', 'b': False}
+
+# ----------------------------------------------------------------------------- storage dtypes, bit-for-bit snapshots
+# (eps, smallest normal, largest) of the narrow float types
+_FINFO = {'f4': (1.1920929e-07, 1.1754944e-38, 3.4028235e+38), 'f2': (9.765625e-04, 6.1035156e-05, 65504.0)}
+
+
+def narrow_rel(dt):
+    """relative tolerance of one unit conversion of an array stored as dt: numpy divides a float32 array by a Python float in
+    float32 (its documented promotion rule; the result is correct to the precision the caller chose): 4 eps of the storage type"""
+    base = dt.lstrip('<>')
+    return REL if base == 'f8' else REL + 4 * _FINFO[base][0]
+
+
+def to_storage(xw, dt, f=None):
+    """the float64 working-unit numbers xw as an array of dtype dt, or None when dt cannot hold them as normal numbers (nor
+    the numbers divided by the unit factor f, nor f itself): the case then keeps float64"""
+    base = dt.lstrip('<>')
+    if base == 'f8':
+        return xw.astype(dt)
+    eps, tiny, big = _FINFO[base]
+    ax = np.abs(np.asarray(xw, dtype=float))
+    nz = ax[ax > 0]
+    for fac in ((1.0,) if f is None else (1.0, 1.0 / abs(f))):
+        if nz.size and (nz.max() * fac > 0.5 * big or nz.min() * fac < 2 * tiny):
+            return None
+    if f is not None and not (2 * tiny < abs(f) < 0.5 * big):
+        return None
+    return np.asarray(xw).astype(dt)
+
+
+def bits(a):
+    a = np.asarray(a)
+    return (a.dtype.str, a.shape, a.tobytes() if a.dtype.kind != 'U' else repr(a.tolist()))
+
+
+def scramble(v):
+    """the caller overwrites a (nested) list in place; returns True when something was changed"""
+    if isinstance(v, list) and v:
+        if isinstance(v[0], list):
+            return scramble(v[0])
+        v[0] = 12345.5 if not isinstance(v[0], str) else 'Zz'
+        v.reverse()
+        return True
+    return False
+
+
+def scramble_model(m):
+    """overwrite in place the first value list found in a DataModelDict the caller received"""
+    for k in list(m.keys()):
+        v = m[k]
+        if k in ('value', 'error') and isinstance(v, list):
+            return scramble(v)
+        if isinstance(v, dict):
+            if scramble_model(v):
+                return True
+        elif isinstance(v, list):
+            for q in v:
+                if isinstance(q, dict) and scramble_model(q):
+                    return True
+    return False
+
+
+def overwrite(a):
+    """the caller overwrites in place an array it owns (when it is writable); True when done"""
+    if isinstance(a, np.ndarray) and a.ndim and a.flags.writeable and a.size:
+        a[...] = _SENTINEL[a.dtype.kind] if a.dtype.kind != 'f' else -9.75
+        return True
+    return False
 
 
 def lay(a, layout):
     """array with the shape and elements of a in the memory layout named (see gens_c10.LAYOUTS); never shares a"""
-    a = np.asarray(a)
+    a = np.array(a)                      # an own copy first: no layout below may hand the caller's array on
     if a.ndim == 0 or layout == 'C' or (layout == 'X' and a.ndim < 2):
         out = np.array(a, order='C')
     elif layout == 'T':
-        out = np.ascontiguousarray(a.T).T                          # what np.array([x, y, z]).T gives
+        out = np.ascontiguousarray(a.T).T if a.ndim >= 2 else np.array(a)     # what np.array([x, y, z]).T gives
     elif layout == 'F':
         out = np.array(a, order='F')
     elif layout == 'X':
@@ -189,48 +258,118 @@ def scaled_tols(Vw, ow, smax):
 
 # ----------------------------------------------------------------------------- value: uc.model / uc.value_unit
 
+def freeze(a, ro):
+    if ro and isinstance(a, np.ndarray):
+        a.flags.writeable = False
+    return a
+
+
+def as_tuple(v):
+    return tuple(as_tuple(x) for x in v) if isinstance(v, list) else v
+
+
+def decades_label(x, labels, name='decades'):
+    ax = np.abs(np.asarray(x, dtype=float)).ravel()
+    nz = ax[ax > 0]
+    if nz.size >= 2 and nz.max() >= 1e8 * nz.min():
+        labels.add(name)
+        return True
+    return False
+
+
 def oracle_value(case):
     import atomman.unitconvert as uc
     from DataModelDict import DataModelDict as DM
     shape = tuple(case['shape']); kind = case['kind']; u = case['unit']; enc = case['enc']; form = case['form']
+    dt = case.get('dtype') if form in ('np', 'np0d') else None
     labels = {'rank%d' % len(shape), 'unit' if u else 'nounit', 'kind_' + kind, 'form_' + form}
     differ = cfg_labels(case, labels)
     has_err = case['error'] is not None
     if has_err:
         labels.add('error')
-    what = 'uc.model(%s %s%r, %r%s) via %s' % (form, 'int' if kind == 'i' else 'float', shape, u, ', error' if has_err else '', enc)
+    what = 'uc.model(%s %s%r%s, %r%s) via %s' % (form, 'int' if kind == 'i' else 'float', shape, ' stored as ' + dt if dt else '', u,
+                                                 ', error' if has_err else '', enc)
     try:
         apply_cfg(case['cfgW'])
         fW = factor(u) if u else 1.0
         x = np.array(case['v'], dtype=float if kind == 'f' else np.int64)        # numbers in unit u (raw if u is None)
         xw = x * fW if u else x
+        rel = REL
+        outkind = 'i' if (kind == 'i' and u is None) else 'f'
+        if dt and kind == 'f':
+            st_ = to_storage(xw, dt, fW if u else None)
+            if st_ is None:
+                labels.add('dt_fallback')
+            else:
+                # what the array handed in stands for: its own numbers, exactly, as float64
+                xw = st_
+                x = st_.astype(float) / fW if u else st_.astype(float)
+                rel = narrow_rel(dt) if u else REL
+                labels.update(('dt', 'dt_float', 'dt_' + dt.lstrip('<>'), 'dt_unit' if u else 'dt_nounit'))
+                if dt[0] == '>':
+                    labels.add('dt_bigendian')
+        elif dt and kind == 'i':
+            # an integer array in a narrow / unsigned / big-endian / bool type; with a unit it is a quantity in working units
+            xi = np.array(case['v'], dtype=np.int64)
+            xw = (xi != 0) if dt == 'bool' else xi.astype(dt)
+            x = xw.astype(np.int64) / fW if u else xw.astype(np.int64)
+            if dt == 'bool' and u is None:
+                outkind = 'b'
+                x = xw
+            labels.update(('dt', 'dt_int', 'dt_unit' if u else 'dt_nounit'))
+            if dt[0] == '>':
+                labels.add('dt_bigendian')
+            lo, hi = g.INT_RANGE[dt]
+            if dt != 'bool' and bool(np.any((xi == lo) | (xi == hi))):
+                labels.add('dt_limit')
         ew = None
         if has_err:
             e = np.array(case['error'], dtype=float)
             ew = e * fW if u else e
-        if form == 'py':
+        if form in ('py', 'tuple'):
             arg, earg = xw.tolist(), (ew.tolist() if has_err else None)
+            if form == 'tuple':
+                arg, earg = as_tuple(arg), as_tuple(earg)
         else:
             # rank 0: a numpy scalar ('np') or a 0-d array ('np0d')
             as_arr = bool(shape) or form == 'np0d'
-            arg = lay(xw, case.get('layout', 'C')) if as_arr else np.asarray(xw)[()]
-            earg = None if not has_err else lay(ew, case.get('elayout', 'C')) if as_arr else np.asarray(ew)[()]
+            arg = freeze(lay(xw, case.get('layout', 'C')), case.get('ro')) if as_arr else np.asarray(xw)[()]
+            earg = None if not has_err else freeze(lay(ew, case.get('elayout', 'C')), case.get('ro')) if as_arr else np.asarray(ew)[()]
             lay_labels(np.asarray(arg), case.get('layout', 'C'), labels)
             if has_err and lay_labels(np.asarray(earg), case.get('elayout', 'C'), set()):
                 labels.add('error_nonC')
+            if as_arr and case.get('ro'):
+                labels.add('readonly')
+        before = (bits(arg), bits(earg) if has_err else None) if isinstance(arg, np.ndarray) else jdump([arg, earg])
         try:
             m = uc.model(arg, u, earg) if has_err else uc.model(arg, u)
         except AttributeError as ex:
-            if "'ndim'" in str(ex) and u is None and form == 'py':
+            if "'ndim'" in str(ex) and u is None and form in ('py', 'tuple'):
                 raise Violation('%s raised %r: units=None skips the array conversion' % (what, ex), key=K('uc.model:no-unit-non-ndarray'))
             raise
+        after = (bits(arg), bits(earg) if has_err else None) if isinstance(arg, np.ndarray) else jdump([arg, earg])
+        require(before == after, lambda: '%s: the value / error handed in was modified by the call' % what)
         if u is None:
             require('unit' not in m, lambda: '%s: model has unit %r' % (what, m.get('unit')))
         else:
             require(m.get('unit') == u, lambda: '%s: model unit is %r' % (what, m.get('unit')))
         # storage is in the requested unit: largest stored magnitude equals largest generating magnitude
-        smax, xmax = float(np.abs(np.asarray(m['value'], dtype=float)).max()), float(np.abs(x).max())
-        require(abs(smax - xmax) <= REL * xmax, lambda: '%s: stored numbers (max %.17g) are not the value in %r (max %.17g)' % (what, smax, u, xmax))
+        smax, xmax = float(np.abs(np.asarray(m['value'], dtype=float)).max()), float(np.abs(np.asarray(x, dtype=float)).max())
+        require(abs(smax - xmax) <= rel * xmax, lambda: '%s: stored numbers (max %.17g) are not the value in %r (max %.17g)' % (what, smax, u, xmax))
+        if shape and decades_label(x, labels):
+            if u:
+                labels.add('decades_unit')
+        if len(shape) >= 1 and shape[0] >= 2 and form in ('np', 'np0d'):
+            # one row handed in alone is stored with the same numbers, bit for bit, as inside the whole array (the row holding the
+            # smallest non-zero magnitude): nothing in the call is relative to the array as a whole
+            ax = np.abs(np.asarray(x, dtype=float)).reshape(shape[0], -1)
+            i = int(np.argmin(np.where(ax > 0, ax, np.inf).min(axis=1)))
+            mr = uc.model(arg[i], u)
+            full = np.asarray(m['value']).reshape(shape)[i]
+            row = np.asarray(mr['value']).reshape(shape[1:])
+            require(bits(full) == bits(row), lambda: '%s: row %d stored as %r inside the array, as %r when handed in alone'
+                    % (what, i, full.tolist(), row.tolist()))
+            labels.add('row_alone')
         key0 = None
         if not shape and isinstance(m['value'], (np.ndarray, np.integer)):
             key0 = K('uc.model:numpy-scalar-not-serialisable')      # a numpy object json/xmltodict do not know
@@ -238,6 +377,14 @@ def oracle_value(case):
         if enc == 'xml' and not shape and 'np.' in payload:
             raise Violation('%s: XML text carries a numpy repr and cannot be read back: %s' % (what, payload[payload.find('<quantity>'):][:160]),
                             key=K('uc.model:numpy-scalar-xml'))
+        cm = bool(case.get('cm'))
+        if cm:
+            # the caller re-uses what it handed in: the model it holds must not move
+            done = overwrite(arg) if isinstance(arg, np.ndarray) else scramble(arg)
+            if has_err:
+                done = (overwrite(earg) if isinstance(earg, np.ndarray) else scramble(earg)) or done
+            if done:
+                labels.add('caller_in')
         apply_cfg(case['cfgR'])
         fR = factor(u) if u else 1.0
         if enc == 'dict':
@@ -247,18 +394,30 @@ def oracle_value(case):
                 term = DM(payload)['quantity']
             except Exception as ex:
                 raise Violation('%s: text cannot be parsed back (%r): %s' % (what, ex, payload[:300]))
+        text0 = jdump(term)
         got = uc.value_unit(term)
         len1 = enc == 'xml' and shape == (1,)
         if len1:
             labels.add('xml_len1')
-        outkind = 'i' if (kind == 'i' and u is None) else 'f'
-        check_array(what, got, shape, outkind, x * fR if u else x, exact=u is None, xml_len1=len1)
+        exp = x * fR if u else x
+        check_array(what, got, shape, outkind, exp, exact=u is None, xml_len1=len1, rel=rel)
         if has_err:
             require('error' in term, lambda: '%s: error missing from the model' % what)
             ge = uc.error_unit(term)
             check_array(what + ' [error]', ge, shape, 'f', e * fR if u else e, exact=u is None, xml_len1=len1)
         else:
             require('error' not in term, lambda: '%s: model has an error field' % what)
+        if cm:
+            # the caller overwrites the array it received: the model and a second reading must not move
+            got2 = uc.value_unit(term)
+            b2 = bits(got2)
+            if overwrite(got):
+                labels.add('caller_out')
+            if has_err:
+                overwrite(ge)
+            require(bits(got2) == b2 and bits(uc.value_unit(term)) == b2,
+                    lambda: '%s: overwriting the array uc.value_unit returned changed a second reading of the same model' % what)
+        require(jdump(term) == text0, lambda: '%s: the model handed to uc.value_unit / error_unit was modified' % what)
     finally:
         restore_units()
     if enc != 'dict' and (len(shape) >= 2 or differ):
@@ -334,24 +493,38 @@ def check_derived(what, B, rel, uses, system=None, enc='dict'):
             check_array(what + ' [scaled System.model read back] pos', s3.atoms.view['pos'], (n, 3), 'f', x, exact=False, tol=tol_x)
 
 
+def rel_labels(s, labels):
+    """classes of relative coordinates: almost on a face / almost integer or half (1e-12 .. 2e-3 away), exactly on it"""
+    s = np.asarray(s, dtype=float)
+    d = np.abs(s - np.round(2 * s) / 2)
+    if bool(np.any((d > 0) & (d <= 2e-3) & (np.round(s, 4) != s))):
+        labels.add('near_face')
+    if bool(np.any(d == 0)):
+        labels.add('exact_rel')
+
+
 def oracle_box(case):
     import atomman as am
     c = case['cell']
-    V, o = gens.cell_vects(c), gens.cell_origin(c)          # angstrom
-    labels = gens.cell_labels(c)
+    V, o = g.cell_vects10(c), gens.cell_origin(c)          # angstrom
+    labels = g.cell_labels10(c)
     differ = cfg_labels(case, labels)
     unit = case['unit']
     u = 'angstrom' if unit == 'default' else unit
     labels.add('unit_default' if unit == 'default' else 'unit_given')
     what = 'Box.model(length_unit=%s) via %s' % (unit, case['enc'])
     rel = np.array(case.get('pts') or [[0.25, 0.5, 0.75]], dtype=float)
+    rel_labels(rel, labels)
     prior = case.get('prior') or {'cell': None, 'host': False, 'uses': []}
     enc = case['enc']
+    cm = bool(case.get('cm'))
     try:
         apply_cfg(case['cfgW'])
         fa = factor('angstrom')
         B = am.Box(vects=V * fa, origin=o * fa)
+        b0 = (bits(B.vects), bits(B.origin))
         m = B.model() if unit == 'default' else B.model(length_unit=unit)
+        require((bits(B.vects), bits(B.origin)) == b0, lambda: '%s: the Box was modified by writing its model' % what)
         for k in ('avect', 'bvect', 'cvect', 'origin'):
             require(m['box'][k].get('unit') == u, lambda: '%s: %s stored with unit %r' % (what, k, m['box'][k].get('unit')))
         fu = factor(u)
@@ -360,16 +533,22 @@ def oracle_box(case):
         require(stored.shape == (3, 3) and bool(np.all(np.abs(stored - Vu) <= REL * np.abs(Vu))),
                 lambda: '%s: stored vectors are not the cell in %s:\n%r\nexpected\n%r' % (what, u, stored, Vu))
         payload = encode(m, enc, what)
+        if cm:
+            # the caller goes on with the Box it wrote: the model it holds must not move
+            B.vects = _PRIOR_V * (3.0 * fa)
+            B.origin = _PRIOR_O * (-2.0 * fa)
+            labels.add('caller_in')
         apply_cfg(case['cfgR'])
         fr = factor('angstrom')
         host = None
+        text0 = jdump(payload)
         if case['ctor']:
             B2 = am.Box(model=payload)
             labels.add('fresh')
         else:
             # the receiving Box exists with another cell and has been used
             pc = prior['cell']
-            Vp, op = (gens.cell_vects(pc), gens.cell_origin(pc)) if pc else (_PRIOR_V, _PRIOR_O)
+            Vp, op = (g.cell_vects10(pc), gens.cell_origin(pc)) if pc else (_PRIOR_V, _PRIOR_O)
             B2 = am.Box(vects=Vp * fr, origin=op * fr)
             if prior['host']:
                 host = am.System(atoms=am.Atoms(atype=np.ones(len(rel), dtype=np.int64), pos=rel @ B2.vects + B2.origin), box=B2)
@@ -386,6 +565,9 @@ def oracle_box(case):
             ret = B2.model(model=payload)
             require(ret is None, lambda: '%s: model(model=...) returned %r' % (what, ret))
             what += ' into an existing Box%s (used before: %s)' % (' of a System' if host is not None else '', ', '.join(uses) or 'nothing')
+        require(jdump(payload) == text0, lambda: '%s: the model handed in was modified by reading it' % what)
+        if cm and enc == 'dict' and scramble_model(payload):
+            labels.add('caller_out')                          # the caller overwrites the model it handed in: the Box must not move
         check_box(what, B2, V * fr, o * fr)
         check_derived(what + ' [after loading]', B2, rel, ('recip', 'c2r', 'scaled'), system=host, enc=enc)
     finally:
@@ -397,41 +579,119 @@ def oracle_box(case):
 
 # ----------------------------------------------------------------------------- atoms / system shared
 
-def build_props(case, Vw=None, ow=None):
+def own_rel(x, Vw, ow):
+    """own (x - o).inv(V) on the last axis"""
+    x = np.asarray(x, dtype=float)
+    return np.linalg.solve(Vw.T, (x - ow).reshape(-1, 3).T).T.reshape(x.shape)
+
+
+def dt_labels(dt, labels, prefix=''):
+    labels.update((prefix + 'dt', prefix + 'dt_' + dt.lstrip('<>')))
+    if dt[0] == '>':
+        labels.add('dt_bigendian')
+
+
+def build_props(case, Vw=None, ow=None, labels=None):
     """per-atom arrays in the *writing* working units and what must come back.
-    returns list of dicts: name, shape, kind, unit, arr (to give to atomman), xu (numbers in unit u) or None"""
+    returns list of dicts: name, shape, kind, unit, arr (to give to atomman), xu (numbers in unit u) or None, rel (tolerance)"""
     out = []
+    labels = set() if labels is None else labels
     for p in case['props']:
-        kind, u, shape = p['kind'], p['unit'], tuple(p['shape'])
-        d = {'name': p['name'], 'shape': shape, 'kind': kind, 'unit': u, 'layout': p.get('layout', 'C')}
+        kind, u, shape, dt = p['kind'], p['unit'], tuple(p['shape']), p.get('dtype')
+        d = {'name': p['name'], 'shape': shape, 'kind': kind, 'unit': u, 'layout': p.get('layout', 'C'), 'rel': REL, 'back': kind,
+             'ro': bool(p.get('ro'))}
         if kind == 's':
             d['arr'] = np.array(p['values'], dtype=str)
             d['raw'] = p['values']
         elif kind == 'i':
             a = np.array(p['values'], dtype=np.int64)
+            if dt:
+                lo, hi = g.INT_RANGE[dt]
+                if dt != 'bool' and bool(np.any((a == lo) | (a == hi))):
+                    labels.add('dt_limit')
+                a = (a != 0) if dt == 'bool' else a.astype(dt)
+                dt_labels(dt, labels, 'prop_')
+                labels.add('prop_dt_int')
+                if dt == 'bool':
+                    d['back'] = 'b'
             d['arr'] = a
             d['raw'] = a
             if u is not None:
                 d['xu'] = a / factor(u)                 # an integer array that is a quantity in working units
-        elif u == 'scaled':
-            s = np.array(p['values'], dtype=float)
-            d['s'] = s
-            d['arr'] = s @ Vw + ow
         else:
-            x = np.array(p['values'], dtype=float)
-            d['arr'] = x * factor(u) if u else x
-            d['raw'] = x
-            d['xu'] = x
+            if u == 'scaled':
+                s = np.array(p['values'], dtype=float)
+                arr = s @ Vw + ow
+                f = None
+            else:
+                x = np.array(p['values'], dtype=float)
+                f = factor(u) if u else None
+                arr = x * f if u else x
+            if dt:
+                st_ = to_storage(arr, dt, f)
+                if st_ is None:
+                    labels.add('dt_fallback')
+                else:
+                    # what the stored array stands for: its own numbers, exactly, as float64
+                    arr = st_
+                    a64 = st_.astype(float)
+                    d['arr64'] = a64
+                    if u == 'scaled':
+                        s = own_rel(a64, Vw, ow)
+                    elif u:
+                        x = a64 / f
+                        d['rel'] = narrow_rel(dt)
+                    else:
+                        x = a64
+                    dt_labels(dt, labels, 'prop_')
+                    labels.add('prop_dt_float')
+                    if u == 'scaled':
+                        labels.add('prop_dt_scaled')
+            d['arr'] = arr
+            if u == 'scaled':
+                d['s'] = s
+            else:
+                d['raw'] = x
+                d['xu'] = x
+                if u and decades_label(x, labels, 'prop_decades'):
+                    pass
         out.append(d)
     return out
 
 
 def atoms_kwargs(case, props, atype, pos):
-    """keyword arguments for am.Atoms: every array in its drawn memory layout (same shape and elements)"""
-    kw = {'atype': lay(atype, case.get('atype_layout', 'C')), 'pos': lay(pos, case.get('pos_layout', 'C'))}
+    """keyword arguments for am.Atoms: every array in its drawn memory layout (same shape and elements), read-only when drawn"""
+    ro = bool(case.get('ro'))
+    kw = {'atype': freeze(lay(atype, case.get('atype_layout', 'C')), ro), 'pos': freeze(lay(pos, case.get('pos_layout', 'C')), ro)}
     for d in props:
-        kw[d['name']] = lay(d['arr'], d['layout'])
+        kw[d['name']] = freeze(lay(d['arr'], d['layout']), d.get('ro'))
     return kw
+
+
+def narrow_inputs(case, atype, posw, f, labels, Vw=None, ow=None):
+    """atype and pos in the storage dtypes drawn: (atype array, pos array, pos as float64 exactly, relative tolerance of pos with a unit)"""
+    adt, pdt = case.get('atype_dtype'), case.get('pos_dtype')
+    if adt:
+        atype = atype.astype(adt)
+        dt_labels(adt, labels, 'atype_')
+    pos, rel = posw, REL
+    if pdt:
+        st_ = to_storage(posw, pdt, f)
+        if st_ is None:
+            labels.add('dt_fallback')
+        else:
+            pos, posw, rel = st_, st_.astype(float), narrow_rel(pdt)
+            dt_labels(pdt, labels, 'pos_')
+    return atype, pos, posw, rel
+
+
+def caller_overwrites(akw, labels):
+    """after the model was written the caller re-uses every array it handed in"""
+    done = False
+    for a in akw.values():
+        done = overwrite(a) or done
+    if done:
+        labels.add('caller_in')
 
 
 def layout_labels(case, kw, props, sel, labels):
@@ -470,11 +730,11 @@ def check_props(what, atoms, props, sel, fratio, scaled_tol=None, xml=False):
         if d['kind'] == 's':
             check_array(w, got, d['shape'], 's', d['raw'], exact=True)
         elif u is None:
-            check_array(w, got, d['shape'], d['kind'], d['raw'], exact=True)
+            check_array(w, got, d['shape'], d['back'], d['raw'], exact=True)
         elif u == 'scaled':
-            check_array(w, got, d['shape'], 'f', d['arr'] * fratio, exact=False, tol=scaled_tol * fratio)
+            check_array(w, got, d['shape'], 'f', d.get('arr64', d['arr']) * fratio, exact=False, tol=scaled_tol * fratio)
         else:
-            check_array(w, got, d['shape'], 'f', d['xu'] * factor(u), exact=False)
+            check_array(w, got, d['shape'], 'f', d['xu'] * factor(u), exact=False, rel=d['rel'])
 
 
 def prop_labels(props, sel, labels):
@@ -507,8 +767,13 @@ def oracle_atoms(case):
         fa = factor('angstrom')
         pos_ang = np.array(case['pos'], dtype=float)
         atype = np.array(case['atype'], dtype=np.int64)
-        props = build_props(case)
-        akw = atoms_kwargs(case, props, atype, pos_ang * fa)
+        props = build_props(case, labels=labels)
+        atype_a, pos_a, posw, pos_rel = narrow_inputs(case, atype, pos_ang * fa, factor(case['pos_unit'] or 'angstrom'), labels)
+        if pos_a.dtype != np.dtype(float):
+            pos_ang = posw / fa                                 # what the stored array stands for
+        akw = atoms_kwargs(case, props, atype_a, pos_a)
+        if case.get('ro') or any(d.get('ro') for d in props):
+            labels.add('readonly')
         a = am.Atoms(**akw)
         names = ['atype', 'pos'] + [d['name'] for d in props]
         units = {'atype': None, 'pos': case['pos_unit']}
@@ -518,7 +783,10 @@ def oracle_atoms(case):
         if len(sel) < len(names):
             labels.add('subset')
         layout_labels(case, akw, props, sel, labels)
+        kw0 = copy.deepcopy(kw)
+        b0 = {k: bits(v) for k, v in akw.items()}
         m = a.model(**kw)
+        require({k: bits(v) for k, v in akw.items()} == b0, lambda: '%s: an array held by the Atoms was modified by writing the model' % what)
         listed = [pm['name'] for pm in m['atoms'].aslist('property')]
         require(listed == list(sel), lambda: '%s: model lists properties %r, requested %r' % (what, listed, list(sel)))
         require(m['atoms']['natoms'] == n, lambda: '%s: natoms %r' % (what, m['atoms']['natoms']))
@@ -529,17 +797,28 @@ def oracle_atoms(case):
             require(pm['data'].get('unit') == wantu, lambda: '%s: property %r stored with unit %r, requested %r'
                     % (what, pm['name'], pm['data'].get('unit'), wantu))
         payload = encode(m, case['enc'], what)
+        cm = bool(case.get('cm'))
+        if cm:
+            caller_overwrites(akw, labels)
         apply_cfg(case['cfgR'])
         fr = factor('angstrom')
+        text0 = jdump(payload)
         a2 = am.Atoms(model=payload)
+        require(jdump(payload) == text0, lambda: '%s: the model handed in was modified by reading it' % what)
+        if cm and case['enc'] == 'dict' and scramble_model(payload):
+            labels.add('caller_out')
         require(a2.natoms == n, lambda: '%s: natoms %d read back as %r' % (what, n, a2.natoms))
         require(set(a2.prop()) == set(sel) | {'atype', 'pos'}, lambda: '%s: properties read back %r, written %r' % (what, a2.prop(), sel))
         if 'atype' in sel:
             check_array(what + ' atype', a2.view['atype'], (n,), 'i', atype, exact=True)
         if 'pos' in sel:
-            check_array(what + ' pos (unit %r)' % umap['pos'], a2.view['pos'], (n, 3), 'f', pos_ang * fr, exact=False)
+            check_array(what + ' pos (unit %r)' % umap['pos'], a2.view['pos'], (n, 3), 'f', pos_ang * fr, exact=False, rel=pos_rel)
         check_props(what, a2, props, sel, fr / fa)
         hi, _ = prop_labels(props, sel, labels)
+        if case.get('keep_kw') and kw:
+            labels.add('keep_kw')
+            require(kw == kw0, lambda: '%s: the caller\'s keyword arguments were modified by the call: handed in %r, afterwards %r'
+                    % (what, kw0, kw), key=K('model:prop_unit-argument-modified'))
     finally:
         restore_units()
     if case['enc'] != 'dict' and (hi or differ):
@@ -561,21 +840,29 @@ def oracle_system(case):
     n = case['natoms']
     c = case['cell']
     route, enc = case['route'], case['enc']
-    labels = gens.cell_labels(c) | {'natoms1' if n == 1 else 'natoms>1', 'route_' + route}
+    labels = g.cell_labels10(c) | {'natoms1' if n == 1 else 'natoms>1', 'route_' + route}
     differ = cfg_labels(case, labels)
     what = 'System %s (%s, box_unit %r, pos %r) via %s' % (route, case['how'], case['box_unit'], case['pos_unit'], enc)
     tmpdir = None
     try:
         apply_cfg(case['cfgW'])
         fa = factor('angstrom')
-        V, o = gens.cell_vects(c), gens.cell_origin(c)
+        V, o = g.cell_vects10(c), gens.cell_origin(c)
         box = am.Box(vects=V * fa, origin=o * fa)
         Vw, ow = np.array(box.vects, dtype=float), np.array(box.origin, dtype=float)   # the cell atomman keeps (floor applied)
         s = np.array(case['rel'], dtype=float)
+        rel_labels(s, labels)
         posw = s @ Vw + ow
         atype = np.array(case['atype'], dtype=np.int64)
-        props = build_props(case, Vw, ow)
-        akw = atoms_kwargs(case, props, atype, posw)
+        props = build_props(case, Vw, ow, labels)
+        pu0 = case['pos_unit']
+        atype_a, pos_a, posw2, pos_rel = narrow_inputs(case, atype, posw, None if pu0 == 'scaled' else factor(pu0 or 'angstrom'), labels)
+        if posw2 is not posw:
+            posw = posw2                                        # what the stored array stands for
+            s = own_rel(posw, Vw, ow)
+        akw = atoms_kwargs(case, props, atype_a, pos_a)
+        if case.get('ro') or any(d.get('ro') for d in props):
+            labels.add('readonly')
         atoms = am.Atoms(**akw)
         amax = int(atype.max())
         system = am.System(atoms=atoms, box=box, pbc=list(case['pbc']),
@@ -607,6 +894,8 @@ def oracle_system(case):
 
         # ---- write
         m = None
+        kw0 = copy.deepcopy(kw)
+        b0 = ({k: bits(v) for k, v in akw.items()}, bits(box.vects), bits(box.origin), bits(system.pbc))
         if route == 'model':
             m = system.model(**kw)
             payload = encode(m, enc, what, indent=case['indent'])
@@ -634,6 +923,8 @@ def oracle_system(case):
             if payload == '' and given is None and case['ext'] not in ('.json', '.xml'):
                 raise Violation("%s: dump(f='system%s') without format wrote an empty file (documented: set to 'json')" % (what, case['ext']),
                                 key=K('dump:system_model:format-not-inferable-writes-nothing'))
+        require(({k: bits(v) for k, v in akw.items()}, bits(box.vects), bits(box.origin), bits(system.pbc)) == b0,
+                lambda: '%s: the System (an array of its Atoms, its Box or pbc) was modified by writing the model' % what)
         if isinstance(payload, str):
             first = payload.lstrip()[:1]
             require(first == ('{' if enc == 'json' else '<'), lambda: '%s: text is not %s: %r' % (what, enc, payload[:80]))
@@ -656,9 +947,17 @@ def oracle_system(case):
                     require(st_.size == sv.size and float(np.abs(st_.reshape(sv.shape) - sv).max()) <= tol_s,
                             lambda: '%s: property %r stored as %r, box-relative coordinates are %r (tol %.3g)'
                             % (what, pm['name'], st_.tolist(), sv.tolist(), tol_s))
+        # ---- the caller goes on with what it handed in: the model it holds must not move
+        cm = bool(case.get('cm'))
+        if cm:
+            caller_overwrites(akw, labels)
+            system.box.vects = _PRIOR_V * (3.0 * fa)
+            system.box.origin = _PRIOR_O * (-2.0 * fa)
+            system.pbc = [not bool(q) for q in case['pbc']]
         # ---- read
         apply_cfg(case['cfgR'])
         fr = factor('angstrom')
+        text0 = jdump(payload) if route in ('model', 'dump') else None
         if route == 'model':
             s2 = am.System(model=payload)
         elif route == 'dump':
@@ -667,6 +966,10 @@ def oracle_system(case):
             s2 = am.load('system_model', payload if case['indent'] is None else io.BytesIO(payload.encode('UTF-8')))
         else:
             s2 = am.load('system_model', path)
+        if text0 is not None:
+            require(jdump(payload) == text0, lambda: '%s: the model handed in was modified by reading it' % what)
+            if cm and enc == 'dict' and scramble_model(payload):
+                labels.add('caller_out')
         # ---- compare
         Vexp, oexp = Vw * (fr / fa), ow * (fr / fa)
         if case['box_unit'] is None and abs(fr / fa - 1.0) > 1e-9:
@@ -693,10 +996,14 @@ def oracle_system(case):
             if pu == 'scaled':
                 check_array(what + ' pos (scaled)', s2.atoms.view['pos'], (n, 3), 'f', posw * (fr / fa), exact=False, tol=tol_x * fr / fa)
             else:
-                check_array(what + ' pos (unit %r)' % pu, s2.atoms.view['pos'], (n, 3), 'f', posw * (fr / fa), exact=False)
+                check_array(what + ' pos (unit %r)' % pu, s2.atoms.view['pos'], (n, 3), 'f', posw * (fr / fa), exact=False, rel=pos_rel)
         check_props(what, s2.atoms, props, sel, fr / fa, scaled_tol=tol_x)
         hi, sc = prop_labels(props, sel, labels)
         sc = sc or ('pos' in sel and umap['pos'] == 'scaled')
+        if case.get('keep_kw') and kw0:
+            labels.add('keep_kw')
+            require(kw == kw0, lambda: '%s: the caller\'s keyword arguments were modified by the call: handed in %r, afterwards %r'
+                    % (what, kw0, kw), key=K('model:prop_unit-argument-modified'))
     finally:
         restore_units()
         if tmpdir is not None:
